@@ -13,7 +13,7 @@ import (
 	"github.com/libp2p/go-libp2p/core/peer"
 )
 
-// universe: G(0) - B1 - B2 - B3 and the fork B1 - F2; G is known and finalised.
+// universe: G(0) - B1 - B2 - B3 and the fork B1 - F2 - F3; G is known and finalised.
 type zzWorld32 struct {
 	hdr    []*types.Header
 	hash   []common.Hash
@@ -42,6 +42,7 @@ func zzNewWorld32() *zzWorld32 {
 	add(1, 2, 0xb2)  // 2 B2
 	add(2, 3, 0xb3)  // 3 B3
 	add(1, 2, 0xf2)  // 4 F2
+	add(4, 3, 0xf3)  // 5 F3
 	return w
 }
 
@@ -105,7 +106,7 @@ func (w *zzWorld32) importBlock(bd *types.BlockData, _ BlockOrigin) (bool, error
 	return true, nil
 }
 
-var zzSegments32 = [][]int{{1}, {1, 2}, {1, 2, 3}, {2}, {2, 3}, {3}, {4}, {1, 4}}
+var zzSegments32 = [][]int{{1}, {1, 2}, {1, 2, 3}, {2}, {2, 3}, {3}, {4}, {1, 4}, {4, 5}, {1, 4, 5}}
 
 // ZZ_C32_process: two block responses, each a symbolic segment of the universe, optionally
 // corrupted (a stated hash that is not the header's hash, or blocks out of chain order), are
